@@ -91,6 +91,9 @@ type Env struct {
 	Budget   int64
 	Sched    bool // running as a task under the scheduler
 	Fresh    bool // first call of a fresh process: install the package-level loader the operation expects
+	// SharedTyped / SharedGeneric: one root document shared, as read-only context, by all tasks
+	SharedTyped   interface{}
+	SharedGeneric interface{}
 }
 
 // OpResult is everything observable about one operation.
@@ -150,6 +153,16 @@ func elementBytes(w *model.World, ptr string) ([]byte, error) {
 		return nil, fmt.Errorf("harness: no element at %q", ptr)
 	}
 	return json.Marshal(v)
+}
+
+func rootOfEnv(env *Env, w *model.World, form string) (interface{}, error) {
+	switch form {
+	case "shared-typed":
+		return env.SharedTyped, nil
+	case "shared-generic":
+		return env.SharedGeneric, nil
+	}
+	return rootOf(w, form)
 }
 
 func rootOf(w *model.World, form string) (interface{}, error) {
@@ -262,7 +275,7 @@ func ExecOp(op Op, env *Env) *OpResult {
 			return fail(err)
 		}
 		if op.Entry == "ExpandSchema" {
-			if rootVal, err = rootOf(w, op.Root); err != nil {
+			if rootVal, err = rootOfEnv(env, w, op.Root); err != nil {
 				return fail(err)
 			}
 			call = func() { res.Err = spec.ExpandSchema(sch, rootVal, cache) }
@@ -284,7 +297,7 @@ func ExecOp(op Op, env *Env) *OpResult {
 			return fail(err)
 		}
 		if op.Entry == "ExpandParameterWithRoot" {
-			if rootVal, err = rootOf(w, op.Root); err != nil {
+			if rootVal, err = rootOfEnv(env, w, op.Root); err != nil {
 				return fail(err)
 			}
 			call = func() { res.Err = spec.ExpandParameterWithRoot(p, rootVal, cache) }
@@ -302,7 +315,7 @@ func ExecOp(op Op, env *Env) *OpResult {
 			return fail(err)
 		}
 		if op.Entry == "ExpandResponseWithRoot" {
-			if rootVal, err = rootOf(w, op.Root); err != nil {
+			if rootVal, err = rootOfEnv(env, w, op.Root); err != nil {
 				return fail(err)
 			}
 			call = func() { res.Err = spec.ExpandResponseWithRoot(p, rootVal, cache) }
@@ -313,7 +326,7 @@ func ExecOp(op Op, env *Env) *OpResult {
 	case "ResolveRef", "ResolveRefWithBase", "ResolveParameter", "ResolveParameterWithBase", "ResolveResponse", "ResolveResponseWithBase",
 		"ResolvePathItem", "ResolvePathItemWithBase", "ResolveItems", "ResolveItemsWithBase":
 		var err error
-		if rootVal, err = rootOf(w, op.Root); err != nil {
+		if rootVal, err = rootOfEnv(env, w, op.Root); err != nil {
 			return fail(err)
 		}
 		ref, err := spec.NewRef(op.Ref)
